@@ -646,6 +646,8 @@ class Engine:
                 if not (r.hi is not None and r.hi <= t.hi):
                     self.require("ub", "signed_overflow(<<)", zt(r) <= t.hi, node)
                     r = V(r.t, r.lo, t.hi if r.hi is None else min(r.hi, t.hi))
+                if a.concrete and a.t == 1 and not b.concrete:
+                    r = V(r.t, r.lo, r.hi, p2=b)
                 return r
             r = self.arith("*", a, p, None)
             return self.conv(r, t, node) if t is not None else r
@@ -728,6 +730,17 @@ class Engine:
                     return V(r, 0 if op == "^" else c, (1 << w) - 1)
                 return V(r, t.lo if t else None, t.hi if t else None)
             raise Unsupported("%s with a negative constant" % op)
+        if op == "&" and (a.p2 is not None or b.p2 is not None):
+            # x & 2^c  =  (bit c of x) * 2^c ; the bit test is an if-chain over the (bounded) shift count
+            x, p = (b, a) if a.p2 is not None else (a, b)
+            cnt = p.p2
+            if x.lo is not None and x.lo >= 0 and cnt.lo is not None and cnt.hi is not None:
+                def has_bit(v, mask):
+                    return (v / mask) % 2 == 1 if mask > 1 else v % 2 == 1
+                tb = has_bit(zt(x), 1 << cnt.hi)
+                for k in range(cnt.hi - 1, cnt.lo - 1, -1):
+                    tb = z3.If(zt(cnt) == k, has_bit(zt(x), 1 << k), tb)
+                return V(z3.If(tb, zt(p), z3.IntVal(0)), 0, p.hi)
         wa, wb = self.width_of(a), self.width_of(b)
         if wa is None or wb is None:
             raise Unsupported("bit operation %s on operands whose non-negative width cannot be established" % op)
